@@ -993,12 +993,12 @@ func finishSchemaCorrespondence(c *vh.Ctx, b *vh.Batch) {
 		return
 	}
 	for _, d := range ds {
-		c.Report(vh.Finding{Class: "schema-model-mismatch-" + d.Line.Op, What: fmt.Sprintf("%s disagreement (%s): impl=%q model=%q", d.Line.Op, d.Line.Tag, trunc(d.Line.Impl, 400), trunc(d.Model, 400)),
+		c.Report(vh.Finding{Class: "schema-model-mismatch-" + d.Line.Op, What: fmt.Sprintf("%s disagreement (%s): impl=%q model=%q", d.Line.Op, d.Line.Tag, truncC16(d.Line.Impl, 400), truncC16(d.Model, 400)),
 			Check: "correspondence", Op: d.Line.Op, Input: d.Line.Payload(), Expected: d.Model, Actual: d.Line.Impl})
 	}
 }
 
-func trunc(s string, n int) string {
+func truncC16(s string, n int) string {
 	if len(s) > n {
 		return s[:n] + "…"
 	}
@@ -1238,7 +1238,7 @@ func runC16(c *vh.Ctx) {
 			cr, crashed := cs.Crash[op.I]
 			res := cs.Res[op.I]
 			what := func() string {
-				return fmt.Sprintf("%s %s %s%s on schema %s", op.K, op.Mode, trunc(op.Src, 200), op.A+" "+op.B, cs.Tag)
+				return fmt.Sprintf("%s %s %s%s on schema %s", op.K, op.Mode, truncC16(op.Src, 200), op.A+" "+op.B, cs.Tag)
 			}
 			switch {
 			case crashed:
@@ -1248,12 +1248,12 @@ func runC16(c *vh.Ctx) {
 				if !op.Flag {
 					c.Dist("crash-not-predicted:" + op.K)
 				}
-				c.Report(vh.Finding{Class: cls, What: fmt.Sprintf("%s: %s (%s) %s", what(), cr.Kind, cr.Funcs, trunc(cr.Head, 160)), Check: "oracle", Op: op.K, Input: input,
+				c.Report(vh.Finding{Class: cls, What: fmt.Sprintf("%s: %s (%s) %s", what(), cr.Kind, cr.Funcs, truncC16(cr.Head, 160)), Check: "oracle", Op: op.K, Input: input,
 					Expected: "a verdict", Actual: cr.Kind + " in " + cr.Funcs})
 			case strings.HasPrefix(res, "panic"):
 				cls := c16ClassOfPanic(op, res)
 				c.Dist("panic:" + cls)
-				c.Report(vh.Finding{Class: cls, What: fmt.Sprintf("%s: %s", what(), trunc(res, 300)), Check: "oracle", Op: op.K, Input: input, Expected: "a verdict", Actual: res})
+				c.Report(vh.Finding{Class: cls, What: fmt.Sprintf("%s: %s", what(), truncC16(res, 300)), Check: "oracle", Op: op.K, Input: input, Expected: "a verdict", Actual: res})
 			case res == "":
 				c.Report(vh.Finding{Class: "worker-protocol", What: "no result for " + what(), Check: "oracle", Op: op.K, NoInput: true})
 			case strings.HasPrefix(res, "skip"):
